@@ -100,6 +100,47 @@ def conv_val(x, num):
     raise HarnessError(f"unknown number profile {num}")
 
 
+SEQ_FORMS = ("list", "list", "tuple", "gen", "iter", "map", "objarray")
+
+
+def seq_form(values, form):
+    """The same node sequence handed over in another legitimate form.  One-shot iterables (generator, iterator,
+    map object) are accepted by every node-taking entry point of the pinned library that this is used for
+    (evaluation, knot_insert / knot_remove / knot_clean, split, KnotVector.insert / remove / + / -, basis
+    evaluation, fit nodes), so they must keep giving the result the list gives."""
+    values = list(values)
+    if form == "tuple":
+        return tuple(values)
+    if form == "gen":
+        return (v for v in values)
+    if form == "iter":
+        return iter(values)
+    if form == "map":
+        return map(lambda v: v, values)
+    if form == "objarray":
+        arr = np.empty(len(values), dtype=object)
+        for i, v in enumerate(values):
+            arr[i] = v
+        return arr
+    return values
+
+
+SEQ_ORDERS = ("given", "given", "reversed", "interleaved", "rotated")
+
+
+def reorder(values, order):
+    """A deterministic rearrangement (the statements never ask for sorted nodes)."""
+    values = list(values)
+    if order == "reversed":
+        return values[::-1]
+    if order == "interleaved":
+        return values[1::2] + values[0::2][::-1]
+    if order == "rotated":
+        k = len(values) // 2
+        return values[k:] + values[:k]
+    return values
+
+
 def conv_points(P, num):
     """P: list of scalars, or list of lists (vectors)."""
     if not isinstance(P[0], (list, tuple)):
@@ -120,6 +161,52 @@ def build_curve(case):
     P = conv_points(case["P"], num)
     w = None if case.get("w") is None else [conv_val(x, num) for x in case["w"]]
     return Curve(U, P, w)
+
+
+HISTORY_MODES = (None, None, None, "points-only", "weights-then-points", "points-then-weights")
+
+
+def default_use(curve):
+    """Use an object the way a caller would before changing it (cheap: evaluation only; the checks add the
+    operation they are about)."""
+    umin, umax = curve.knotvector.limits
+    for fn in (lambda: curve(umin), lambda: curve([umin, umax])):
+        try:
+            fn()
+        except Exception as exc:
+            if not from_library(exc):
+                raise
+
+
+def build_curve_history(case, mode, use=default_use):
+    """The curve of ``case`` reached through the public setters on an object that was constructed with other
+    control points (and other weights) and has already been used: whatever an object remembers about its former
+    data must not survive the assignment.  Returns None when the mode does not apply."""
+    if not mode:
+        return build_curve(case)
+    num = case.get("num", "frac")
+    U = [conv_knot(u, num) for u in case["U"]]
+    P = conv_points(case["P"], num)
+    w = None if case.get("w") is None else [conv_val(x, num) for x in case["w"]]
+    one = conv_val(F(1), num)
+    if isinstance(case["P"][0], (list, tuple)):
+        P0 = conv_points([[c + 1 for c in pt] for pt in case["P"]], num)
+    else:
+        P0 = conv_points([c + 1 for c in case["P"]], num)
+    w0 = w if (w is None or mode == "points-only") else [x * (i + 2) * one for i, x in enumerate(w)]
+    curve = Curve(U, P0, w0)
+    use(curve)
+    if mode == "points-only":
+        curve.ctrlpoints = P
+    elif mode == "weights-then-points":
+        if w is not None:
+            curve.weights = w
+        curve.ctrlpoints = P
+    else:
+        curve.ctrlpoints = P
+        if w is not None:
+            curve.weights = w
+    return curve
 
 
 def case_state(case):
